@@ -82,6 +82,9 @@ def gen_session(rng, tier, for_crash=False):
     n = rng.randint(31, 300) if big else rng.randint(1, 30)
     if for_crash and tier == "quick":
         n = rng.randint(1, 14) if not big else rng.randint(15, 60)
+    if for_crash and rng.random() < 0.004:
+        # thousands of records (crash points are then sampled, with every power of two and its neighbours among them)
+        n = rng.choice([rng.randint(1020, 1030), rng.randint(4090, 4200), rng.randint(8185, 8300)])
     if not for_crash and rng.random() < 0.003:
         # outputs of 100 KiB .. 2 MiB (buffer and chunk limits of the writer / reader lie at 64 KiB and 1 MiB)
         n = rng.choice([rng.randint(1500, 2500), rng.randint(15500, 17500), rng.randint(22000, 30000)])
@@ -621,9 +624,22 @@ def check_crash_points(trace, session, ops, complete, d, ctx):
         count_missing = len(ls) < 2 or not ls[1].strip()
         return count_missing or len(data) <= box_start
 
-    # (1) every operation boundary
+    # (1) every operation boundary (long sessions: a sample that contains the first and last 40, every boundary around a
+    #     power-of-two number of records and 150 random ones)
     outcomes = []
-    for k in range(len(ops) + 1):
+    boundaries = range(len(ops) + 1)
+    long_session = n > 300
+    if long_session:
+        per_rec = max(1, (len(ops) - 8) // max(1, n))
+        keep = set(range(0, 40)) | set(range(len(ops) - 40, len(ops) + 1))
+        for j in range(8, 15):
+            for dlt in (-1, 0, 1):
+                centre = (2 ** j + dlt) * per_rec
+                keep |= set(range(max(0, centre - 3), min(len(ops), centre + 8)))
+        keep |= set(rng.sample(range(len(ops) + 1), 150))
+        boundaries = sorted(k for k in keep if 0 <= k <= len(ops))
+        ctx.probe("long_session_sampled_crash_points")
+    for k in boundaries:
         data = image_after(ops, k)
         must_reject = incomplete(data)
         res = judge(data, f"op-boundary:{k}/{len(ops)}", must_reject)
@@ -634,6 +650,8 @@ def check_crash_points(trace, session, ops, complete, d, ctx):
     close_phase = [i for i in write_idx if i >= last_write_idx - 3]      # count back-fill, box, newline
     header = write_idx[:4]
     sampled = rng.sample(write_idx, min(len(write_idx), 6))
+    if long_session:
+        header, close_phase = header[:2], close_phase[-2:]
     for i in sorted(set(close_phase + header + sampled)):
         data_len = len(ops[i][1].encode())
         for j in range(1, data_len):
@@ -647,13 +665,18 @@ def check_crash_points(trace, session, ops, complete, d, ctx):
     if size <= trace.get("max_bytes_exhaustive", 8192):
         offsets = range(size)
     else:
-        offs = set(rng.sample(range(size), 3000))
+        offs = set(rng.sample(range(size), 3000 if not long_session else 250))
+        starts = []
         pos = 0
         for l in lines:
+            starts.append(pos)
+            pos += len(l) + 1
+        if long_session:
+            starts = starts[:6] + starts[-6:]
+        for pos in starts:
             for dlt in (-3, -2, -1, 0, 1, 2, 3):
                 if 0 <= pos + dlt < size:
                     offs.add(pos + dlt)
-            pos += len(l) + 1
         offsets = sorted(offs)
     for off in offsets:
         judge(complete[:off], f"truncate:{off}", off <= box_start)
